@@ -338,6 +338,13 @@ func (e *Engine) instrWrites(fn *ssa.Function, in ssa.Instruction, ws map[string
 				if isStruct(s.Field(a.Field).Type()) {
 					return
 				}
+				if _, esc := e.escapingField(pt, a.Field); esc {
+					ft := s.Field(a.Field).Type()
+					r := tmp.cellRegion(ft)
+					e.regMaker(r.Key, func(g *Gen) *Region { return g.cellRegion(ft) })
+					addWS(ws, r.Key, !freshSource(a.X))
+					return
+				}
 				r := tmp.fieldRegion(pt, a.Field)
 				idx := a.Field
 				e.regMaker(r.Key, func(g *Gen) *Region { return g.fieldRegion(pt, idx) })
@@ -361,6 +368,13 @@ func (e *Engine) instrWrites(fn *ssa.Function, in ssa.Instruction, ws map[string
 			if isStruct(pt) {
 				s := pt.Underlying().(*types.Struct)
 				for i := 0; i < s.NumFields(); i++ {
+					if _, esc := e.escapingField(pt, i); esc {
+						ft := s.Field(i).Type()
+						r := tmp.cellRegion(ft)
+						e.regMaker(r.Key, func(g *Gen) *Region { return g.cellRegion(ft) })
+						addWS(ws, r.Key, !freshSource(in.Addr))
+						continue
+					}
 					r := tmp.fieldRegion(pt, i)
 					idx := i
 					e.regMaker(r.Key, func(g *Gen) *Region { return g.fieldRegion(pt, idx) })
@@ -586,6 +600,9 @@ func (e *Engine) escapingField(t types.Type, idx int) (int, bool) {
 	if e.escFields == nil {
 		e.escFields = map[string]int{}
 		e.escCells = map[string]bool{}
+		e.escOwners = map[string][][2]int{}
+		escCellOf := map[string]string{}
+		escTagOf := map[string]int{}
 		var keys []string
 		seen := map[string]bool{}
 		for _, f := range e.allFuncs {
@@ -639,8 +656,11 @@ func (e *Engine) escapingField(t types.Type, idx int) (int, bool) {
 						}
 					}
 					if esc {
-						e.escCells["C."+mangle(typeKey(s.Field(fa.Field).Type().Underlying()))] = true
+						ck := "C." + mangle(typeKey(s.Field(fa.Field).Type().Underlying()))
+						e.escCells[ck] = true
 						k := fieldKey(st, fa.Field)
+						escCellOf[k] = ck
+						escTagOf[k] = e.typeTag(st)
 						if !seen[k] {
 							seen[k] = true
 							keys = append(keys, k)
@@ -651,6 +671,7 @@ func (e *Engine) escapingField(t types.Type, idx int) (int, bool) {
 		}
 		sort.Strings(keys)
 		for i, k := range keys {
+			e.escOwners[escCellOf[k]] = append(e.escOwners[escCellOf[k]], [2]int{i + 1, escTagOf[k]})
 			e.escFields[k] = i + 1
 			if os.Getenv("GOVC_DEBUG_ESC") != "" {
 				fmt.Fprintln(os.Stderr, "escaping field:", k)
